@@ -741,7 +741,8 @@ def fam_mixed_cpu(rng):
 
 UNSUPPORTED_KINDS = ["rank5", "rank0", "batch", "big_stride", "big_kernel", "int32_add", "float", "dyn_weights",
                      "big_dim", "no_quant", "dilation", "int16_pool", "bool", "per_axis_fc", "pool_stride4", "dw_stride4",
-                     "dyn_reshape", "dyn_pad", "dyn_mean", "dyn_transpose", "dyn_slice", "dyn_resize", "dyn_split", "dyn_splitv"]
+                     "dyn_reshape", "dyn_pad", "dyn_mean", "dyn_transpose", "dyn_slice", "dyn_resize", "dyn_split", "dyn_splitv",
+                     "tconv_s3", "fc_dynw"]
 
 
 def fam_unsupported(rng, kind=None):
@@ -802,6 +803,19 @@ def fam_unsupported(rng, kind=None):
     elif kind == "int16_pool":
         x = _inp(net, rng, [1, 16, 16, 8], "int16")
         y = pool(net, rng, x, "AVERAGE_POOL_2D", (rng.choice([2, 8, 16]),) * 2, (1, 1), rng.choice(["SAME", "VALID"]))
+    elif kind == "tconv_s3":
+        # a weight-carrying operator that stays on the CPU (stride 3) and reads a tensor produced on the NPU: operands of
+        # operators whose IFM is not input 0
+        x = _inp(net, rng, [1, 6, 6, 4], dt)
+        t = conv2d(net, rng, x, 8, (3, 3)) if rng.random() < 0.8 else x
+        y = transpose_conv(net, rng, t, rng.choice([4, 8]), (3, 3), (3, 3), rng.choice(["SAME", "VALID"]))
+    elif kind == "fc_dynw":
+        # FULLY_CONNECTED whose weights are produced by another operator (dynamic weights), behind an NPU operator
+        x = _inp(net, rng, [1, 16], dt)
+        wsrc = net.input([8, 16], "int8", 0.02, 0, name="wsrc")
+        wt = elementwise(net, rng, "ADD", wsrc, wsrc)
+        y = net.tensor([1, 8], dt, 0.1, 0)
+        net.op("FULLY_CONNECTED", [x, wt, None], [y], dict(FusedActivationFunction=0))
     elif kind.startswith("dyn_"):
         # a parameter operand that is valid TFLite but not a constant: a second graph input, or computed by another operator
         x = _inp(net, rng, [1, 4, 6, 8], dt)
